@@ -4,7 +4,7 @@ From Coq Require Import List ZArith NArith Bool.
 From Verif Require gen.Consts_c09.
 From Verif Require Import lib.Wire c09.Abs c08.SymCrypto gen.Consts_c13 c13.Model c13.Spec
   c13.Proofs c13.Proofs_Book c13.Proofs_Store c13.Proofs_Consume c13.Proofs_Msg c13.Proofs_Sys
-  c13.Proofs_Inv c13.Proofs_Mon.
+  c13.Proofs_Inv c13.Proofs_Mon c13.Proofs_Wait.
 Import ListNotations.
 Local Open Scope Z_scope.
 
@@ -17,18 +17,19 @@ Local Open Scope Z_scope.
    peers after every step — is accepted by the monitor of Spec.v, the very
    function that judges the implementation's traces. *)
 Theorem c13_monitor_accepts_model : forall g ops, init_wf g = true ->
-  mon_run g (mon_init g) 0 (model_trace g (init_sys g) ops) = [].
-Proof. exact monitor_accepts_model_l. Qed.
+  mon_run_all g (mon_init g) 0 (model_trace g (init_sys g) ops) = [].
+Proof. exact monitor_all_accepts_model_l. Qed.
 Print Assumptions c13_monitor_accepts_model.
 
-(* the monitor the check runs adds one clause about the address book's own
-   per-peer cap (addr_book.go's maxAddrsPerPeer); the model is the book whose cap
-   does not bind, so that clause is proved only for configurations with the cap
-   disabled and is otherwise judged on the implementation's traces alone *)
-Theorem c13_monitor_with_book_cap_accepts_model_partial : forall g ops, init_wf g = true -> g_pcap g = 0 ->
-  mon_run_all g (mon_init g) 0 (model_trace g (init_sys g) ops) = [].
-Proof. intros g ops Hw Hp. rewrite mon_run_all_nocap by exact Hp. now apply monitor_accepts_model_l. Qed.
-Print Assumptions c13_monitor_with_book_cap_accepts_model_partial.
+(* the address book's own per-peer cap (addr_book.go maxAddrsPerPeer), which the
+   model's book carries: with a positive cap, after consumeMessage and after the
+   last Disconnected the peer holds at most max(cap, what it held before)
+   addresses below the connected class — whichever entry an eviction picks *)
+Theorem c13_caps_book_per_peer : forall cap b p, 0 < cap ->
+  (forall addrs ttl, ucount p (a_ents (book_consumed cap b p addrs ttl)) <= Z.max cap (pcount p (a_ents b))) /\
+  (forall order, ucount p (a_ents (book_disconnected cap b p order)) <= Z.max cap (pcount p (a_ents b))).
+Proof. intros cap b p H. split; intros; [now apply consumed_bookcap|now apply disconnected_bookcap]. Qed.
+Print Assumptions c13_caps_book_per_peer.
 
 (* the same for the race cases (real goroutines, judged on the final peerstore
    contents against the linearised operations): the final-state check accepts
@@ -103,18 +104,18 @@ Print Assumptions c13_symbolic_scheme_is_ideal.
    classes afterwards; the last disconnect adds at most
    recentlyConnectedPeerMaxAddrs to the recently-connected class *)
 Theorem c13_caps_addresses :
-  forall verify id_of c m b ttl,
+  forall verify id_of c m cap b ttl,
     Z.of_nat (length (consume_addrs verify id_of c m)) <= connectedPeerMaxAddrs /\
     Z.of_nat (length (filter (Qp (c_peer c) is_hi)
-                             (a_ents (book_consumed b (c_peer c) (consume_addrs verify id_of c m) ttl))))
+                             (a_ents (book_consumed cap b (c_peer c) (consume_addrs verify id_of c m) ttl))))
       <= connectedPeerMaxAddrs.
 Proof.
   intros. split; [apply consume_addrs_length|apply consumed_cap, consume_addrs_length].
 Qed.
 Print Assumptions c13_caps_addresses.
 
-Theorem c13_caps_after_last_disconnect : forall b p order,
-  Z.of_nat (length (filter (Qp p is_rc) (a_ents (book_disconnected b p order)))) <=
+Theorem c13_caps_after_last_disconnect : forall cap b p order,
+  Z.of_nat (length (filter (Qp p is_rc) (a_ents (book_disconnected cap b p order)))) <=
   Z.of_nat (length (filter (Qp p is_rc) (a_ents b))) + recentlyConnectedPeerMaxAddrs.
 Proof. exact disconnected_recent. Qed.
 Print Assumptions c13_caps_after_last_disconnect.
@@ -145,31 +146,60 @@ Print Assumptions c13_connected_ttl_only_while_connected.
 (* ... and fall back to a finite lifetime: right after the last Disconnected no
    entry of the peer has the connected TTL, and only entries that were above it
    (permanent) stay at or above it *)
-Theorem c13_fallback_to_finite_lifetime : forall b p order,
-  pall p (fun t => t <> ConnectedAddrTTL) (book_disconnected b p order) /\
-  (length (filter (Qp p (fun t => (ConnectedAddrTTL <=? t)%Z)) (a_ents (book_disconnected b p order))) <=
+Theorem c13_fallback_to_finite_lifetime : forall cap b p order,
+  pall p (fun t => t <> ConnectedAddrTTL) (book_disconnected cap b p order) /\
+  (length (filter (Qp p (fun t => (ConnectedAddrTTL <=? t)%Z)) (a_ents (book_disconnected cap b p order))) <=
    length (filter (Qp p (fun t => (ConnectedAddrTTL <? t)%Z)) (a_ents b)))%nat.
 Proof. intros. split; [apply disconnected_noconn|apply disconnected_fallback]. Qed.
 Print Assumptions c13_fallback_to_finite_lifetime.
 
-(* every connection's identify-wait is eventually released (state predicates
-   over the wait bookkeeping): in every reachable state an open wait channel
-   has a running identify task; a task's answer — any answer — closes its
-   channel; the identify timeout closes them all *)
-Theorem c13_wait_eventually_released_partial : forall g ops, init_wf g = true ->
+(* every connection's identify-wait is released — safety, for every schedule.
+   In every reachable state:
+   (1) an open wait channel has a running identify exchange;
+   (2) a connection's channel whose exchange has finished is closed;
+   (3) a waiter for a connection that still has its channel gets that very
+       channel (closed, if the exchange has finished) and changes nothing;
+   (4) a waiter that registers after the connection was closed and forgotten
+       (Disconnected delivered) gets a fresh, already closed channel, and no
+       exchange is started;
+   (5) a closed channel stays closed under every step. *)
+Theorem c13_wait_released : forall g ops, init_wf g = true ->
   let s := run g (init_sys g) ops in
   (forall ch, In (ch, false) (s_chans s) -> In ch (map fst (s_tasks s))) /\
+  (forall c ch, alist_get c (s_entries s) = Some ch -> ch <> 0 -> ~ In ch (map fst (s_tasks s)) ->
+     In (ch, true) (s_chans s) /\ ~ In (ch, false) (s_chans s)) /\
+  (forall c ch, alist_get c (s_entries s) = Some ch -> ch <> 0 -> identify_wait s c = (s, ch)) /\
+  (forall c, alist_get c (s_entries s) = None -> zin c (s_closed s) = true ->
+     let '(s', ch) := identify_wait s c in
+     In (ch, true) (s_chans s') /\ ~ In (ch, false) (s_chans s') /\ s_tasks s' = s_tasks s /\
+     s_entries s' = s_entries s) /\
+  (forall o x, In (x, true) (s_chans s) -> ~ In (x, false) (s_chans s) ->
+     In (x, true) (s_chans (fst (gstep g s o))) /\ ~ In (x, false) (s_chans (fst (gstep g s o)))).
+Proof.
+  intros g ops Hw s. destruct (run_inv g ops (init_sys g) (init_inv g Hw)) as [_ Hwt _]. fold s in Hwt.
+  pose proof (run_winv g ops (init_sys g) (init_winv g)) as HW. fold s in HW.
+  split; [exact Hwt|]. split; [intros c ch; now apply finished_closed|].
+  split; [intros c ch; apply waiter_same|]. split; [intros c; now apply waiter_late|].
+  intros o x. destruct (gstep g s o) as [s' mo] eqn:E. cbn [fst]. now apply (step_closed_stable g s o s' mo x E).
+Qed.
+Print Assumptions c13_wait_released.
+
+(* ... and the steps that release are always enabled: whatever answer a running
+   exchange gets — refusal, read error, any message — closes its channel, and the
+   identify timeout closes every channel *)
+Theorem c13_wait_release_enabled : forall g ops, init_wf g = true ->
+  let s := run g (init_sys g) ops in
   (forall ch c out, alist_get ch (s_tasks s) = Some c ->
      ~ In (ch, false) (s_chans (fst (gstep g s (OFinish ch c out))))) /\
   (forall d ch, ~ In (ch, false) (s_chans (fst (gstep g s (OTimeout d))))).
 Proof.
   intros g ops Hw s. destruct (run_inv g ops (init_sys g) (init_inv g Hw)) as [_ Hwt _]. fold s in Hwt.
-  split; [exact Hwt|]. split.
+  split.
   - intros ch c out. apply finish_closes.
   - intros d ch. destruct (gstep g s (OTimeout d)) as [s' mo] eqn:E. cbn [fst].
     exact (timeout_all_closed g s d s' mo E Hwt ch).
 Qed.
-Print Assumptions c13_wait_eventually_released_partial.
+Print Assumptions c13_wait_release_enabled.
 
 (* the constants re-read from /repo on every run: the TTL classes are ordered
    as the reasoning needs, the caps are positive and nested, and the TTL values
@@ -257,4 +287,11 @@ Proof. vm_compute. reflexivity. Qed.
 Example monitor_rejects_over_book_cap :
   mon_step_all ex_g (mkMon [] [] [no_dump; no_dump]) (OPush 1 [ex_chunk 1])
     (mkWO 0 [] [] [] [ex_d (map (fun a => (a, RecentlyConnectedAddrTTL)) (zrange 1 65)); no_dump]) = [13].
+Proof. vm_compute. reflexivity. Qed.
+(* the model's book enforces its per-peer cap: 70 new addresses pushed while
+   the peer is not connected leave 64 (the configured cap) *)
+Example ex_book_cap_enforced :
+  let many := mkChunk false (mkMsg [] (map (fun a => mkW a 2 0) (zrange 100 70)) 0 0 KAbsent RAbsent) in
+  let s1 := run ex_g (init_sys ex_g) [OPush 1 [many]] in
+  zlen (d_addrs (dump_peer (s_ps s1) 1)) = 64.
 Proof. vm_compute. reflexivity. Qed.
